@@ -146,3 +146,15 @@ package sio
 //@   ensures[C14] noerr: err == nil && acc != nil
 //@   loop 0 invariant wfCrew(c) && wfChanged(c)
 //@   loop 0 invariant[C14] once: forall k string :: ghostin(delivered, k) ==> (k in presented) && presented[k]
+
+// The callback ProcessMsg hands to Walked.DoEmitted: every emitted message is
+// fed back to the crew (appended to the breadth-first queue) exactly once and
+// reported to the host (appended to this walk's batch) exactly once, in
+// emission order.
+//@ func (*Crew).ProcessMsg$1 returns err
+//@   safety C14
+// (pending and emitted are two distinct local variables of ProcessMsg: their cells are non-nil and different.)
+//@   requires pending != nil && emitted != nil && pending != emitted
+//@   ensures[C14] requeued: len(*pending) == old(len(*pending)) + 1 && (*pending)[len(*pending) - 1] == msg
+//@   ensures[C14] reported: len(*emitted) == old(len(*emitted)) + 1 && (*emitted)[len(*emitted) - 1] == msg
+//@   ensures[C14] noerr: err == nil
